@@ -331,6 +331,27 @@ func registerLibStubs(e *Exec) {
 	in["("+impl+"Export).EnumStringOf"] = opaqueStr
 	in["google.golang.org/protobuf/proto.checkInitialized"] = func(e *Exec, a []Value, call *ssa.CallCommon) Value { return &Iface{} }
 
+	// (*anypb.Any).UnmarshalTo: environment contract - nil or an arbitrary error
+	in["(*google.golang.org/protobuf/types/known/anypb.Any).UnmarshalTo"] = func(e *Exec, a []Value, call *ssa.CallCommon) Value {
+		if e.choice(2) == 1 {
+			return e.opaqueIface("error", "UnmarshalTo error")
+		}
+		return &Iface{}
+	}
+
+	// errors.Is / errors.As over opaque and stub errors: identity, no unwrapping chains
+	in["errors.Is"] = func(e *Exec, a []Value, call *ssa.CallCommon) Value {
+		x, y := a[0].(*Iface), a[1].(*Iface)
+		if x.Typ == nil || y.Typ == nil {
+			return e.tb.Bool(x.Typ == nil && y.Typ == nil)
+		}
+		if !types.Identical(x.Typ, y.Typ) {
+			return e.tb.False
+		}
+		return e.valEqAny(x.Val, y.Val)
+	}
+	in["errors.As"] = func(e *Exec, a []Value, call *ssa.CallCommon) Value { return e.tb.False }
+
 	// sync: single goroutine
 	in["(*sync.Mutex).Lock"] = nop
 	in["(*sync.Mutex).Unlock"] = nop
